@@ -434,6 +434,7 @@ def check(prop, tier, seed, workers=None, runs=None):
     for sig, n in sorted(agg['known_hit'].items()):
         print(f'KNOWN-FINDING: property={prop} {agg["known"][sig]} [signature={sig} hits={n}]')
     violations = 0
+    unrepro = 0
     rc = 0
     by_sig = {}
     for u in agg['unknown']:
@@ -467,7 +468,7 @@ def check(prop, tier, seed, workers=None, runs=None):
                 rc = max(rc, 1)
                 continue
             print(f'HARNESS-NONDETERMINISM signature={sig} did not reproduce in-process nor as a history of {len(hist)} runs (run {u["desc"]})')
-            rc = max(rc, 2)
+            unrepro += 1
             continue
         rec = Eng().replay(events)
         inc = next(i for i in rec.incidents if i.sig == sig).to_json()
@@ -475,7 +476,7 @@ def check(prop, tier, seed, workers=None, runs=None):
         fired, out = confirm_fresh(prop, path, sig)
         if not fired:
             print(f'HARNESS-NONDETERMINISM signature={sig} did not reproduce in a fresh interpreter: {path}\n{out[-2000:]}')
-            rc = max(rc, 2)
+            unrepro += 1
             continue
         violations += 1
         print(f'VIOLATION property={prop} replay={path}')
@@ -484,6 +485,13 @@ def check(prop, tier, seed, workers=None, runs=None):
         rc = max(rc, 1)
     if len(by_sig) > 8:
         print(f'  (+{len(by_sig) - 8} further distinct signatures not minimised: {sorted(by_sig)[8:]})')
+    if unrepro:
+        # an incident that does not replay carries no verdict of its own: with confirmed violations beside it the batch is a
+        # violation (exit 1, every VIOLATION line has a replay that fires); alone it is a harness error (exit 2, never 0)
+        if violations:
+            print(f'NOTE {unrepro} further signature(s) seen in the batch did not reproduce and are not counted (see HARNESS-NONDETERMINISM lines)')
+        else:
+            rc = max(rc, 2)
     extra = None
     if rc == 0 and not os.environ.get('BITSIM_NO_COVERAGE'):
         sample = plan if plan is not None else Eng().plan(tier, seed)
